@@ -7,7 +7,7 @@ import z3
 from .engine import (Engine, State, Frame, Signal, And, Or, Not, Implies, Ite, to_opt, EXC_PARENTS,
                      ACTION_KINDS)
 from .values import (Unsupported, EngineError, is_z3, is_boolish, is_intish, simp, Z, ZB, EnumV, Opt,
-                     SymList, EmptyList, SymSet, Obj, ActionV, ClassRef, FuncV, RangeV, ListLit)
+                     SymList, EmptyList, SymSet, Obj, ActionV, ClassRef, FuncV, RangeV, ListLit, SymMap2)
 from .source import AnchorError, FuncInfo
 
 MUTATORS = {"append", "pop", "add", "remove"}
@@ -81,6 +81,13 @@ class Verifier(Engine):
                 for oid, fields in self._pending_objects:      # objects reachable from parameters
                     st.heap[oid] = fields
                 self._pending_objects = []
+        # free variables of a nested function (closure cells), typed by the sidecar
+        for nm, ty in getattr(c, "closure", {}).items():
+            v, cs = self.fresh(ty, nm)
+            st.frames[0].vars[nm] = v
+            self.inputs[nm] = v
+            for x in cs:
+                st.assume(x)
         # ghost state
         if c.hooks is not None:
             st.heap["g"] = {}
@@ -495,6 +502,13 @@ class Verifier(Engine):
         if isinstance(t, ast.Subscript):
             base = self.ev(t.value, st)
             idx = self.ev(t.slice, st)
+            if isinstance(base, SymMap2) and isinstance(idx, tuple) and len(idx) == 2:
+                if not is_intish(val):
+                    raise Unsupported("pair-keyed dict value")
+                new = SymMap2(simp(z3.Store(base.present, Z(idx[0]), Z(idx[1]), z3.BoolVal(True))),
+                              simp(z3.Store(base.val, Z(idx[0]), Z(idx[1]), Z(val))))
+                self.store_target(t.value, new, st, node)
+                return
             if isinstance(base, SymList) and not base.tup:
                 self.oblige(st, And(self.cmp(ast.GtE(), idx, 0), self.cmp(ast.Lt(), idx, base.length)),
                             "store_index_in_range", node)
